@@ -170,6 +170,10 @@ func ExtractMysqlComment(sql string) (version string, innerSQL string) {
 		digitCount++
 		return !unicode.IsDigit(c) || digitCount == 6
 	})
+	if endOfVersionIndex < 0 {
+		// nothing follows the (at most five) version digits, e.g. /*!123*/ or /*!*/: there is no inner SQL
+		endOfVersionIndex = len(sql)
+	}
 	version = sql[0:endOfVersionIndex]
 	innerSQL = strings.TrimFunc(sql[endOfVersionIndex:], unicode.IsSpace)
 
